@@ -424,8 +424,18 @@ def r_anglesort(idx, rep, rule="R-ANGLESORT"):
     where = "%s:%d" % (f.module.relpath, sorts[0].lineno)
     if isinstance(val, ast.Call) and call_name(val) == "np.arctan2" and len(val.args) == 2:
         y, x = val.args
-        ok = isinstance(y, ast.Subscript) and isinstance(x, ast.Subscript) and u(y.value) == u(x.value) and u(y.slice).replace(" ", "") in (":,1", "(:,1)") \
-            and u(x.slice).replace(" ", "") in (":,0", "(:,0)")
+
+        def col(e):
+            """k when e is column k of the points, centred either as a whole (`(P - c)[:, k]`) or per column (`P[:, k] - c_k`)"""
+            if isinstance(e, ast.BinOp) and isinstance(e.op, ast.Sub):
+                e = e.left
+            if isinstance(e, ast.Subscript):
+                t = u(e.slice).replace(" ", "").strip("()")
+                if t in (":,0", ":,1"):
+                    return int(t[-1]), u(e.value)
+            return None
+        cy, cx = col(y), col(x)
+        ok = cy is not None and cx is not None and cy[0] == 1 and cx[0] == 0 and cy[1] == cx[1]
         rep.check(ok, rule, key, where, "arctan2 is applied to `%s`, `%s` instead of (y, x) of the centred points" % (u(y), u(x)), "arctan2(y, x)")
     elif any(isinstance(c, ast.Call) and call_name(c) == "np.sign" for c in ast.walk(val)):
         rep.bad(rule, key, where, "the sort key `%s` is built with np.sign: sign(0) == 0 sends a vertex with y exactly equal to the centroid's y and x to its left to "
